@@ -275,14 +275,20 @@ def run_case(case, res):
                 raise Violation("operation-raised", f"clear() -> {got}", {})
             m.order, m.val = [], {}
         elif op == "update":
-            ks = [keys[(ki + j * 7 + aux) % len(keys)] for j in range(1 + aux % 3)]
+            npairs = 1 + aux % 3 if aux % 5 else cap + 1 + aux % 4      # sometimes more pairs than the capacity
+            ks = [keys[(ki + j * 7 + aux) % len(keys)] for j in range(npairs)]
+            if aux % 5 == 0 and len(ks) > 2:
+                ks[-1] = ks[-2]                                         # a repeated key among the last stores
             pairs = [(kk, v + j) for j, kk in enumerate(ks)]
             desc = f"update({pairs!r})"
+            kw = {}
             if aux % 2 and len({repr(p[0]) for p in pairs}) == len(pairs):
                 arg = dict(pairs)
             else:
                 arg = pairs
-            got = _guard(desc, n + len(pairs), lambda: c.update(arg))
+            if aux % 7 == 3 and isinstance(keys[0], int) is False:
+                pass
+            got = _guard(desc, n + len(pairs), lambda: c.update(arg, **kw))
             if got != ("ok", None):
                 raise Violation("operation-raised", f"{desc} -> {got}", {})
             for kk, vv in pairs:
